@@ -2,6 +2,7 @@
 #define VF_MAIN_TU 1
 #include "common/monitor.hpp"
 #include "common/iface.hpp"
+#include "common/routes.hpp"
 #include "common/oracle.hpp"
 #include "common/gen.hpp"
 #include "spline_monitors.hpp"
@@ -254,6 +255,8 @@ void checkRoutes(Ctx &c, const IPPoly &pp, const Model &m, double t, int k, int 
     VectorXd hv = pp.evalHint(t, hint, k);
     c.require("C03.route_hinted_identical", sameVec(hv, plain), key, "t=" + jhex(t) + " k=" + std::to_string(k) + " hint_in=" + std::to_string(hin));
     c.require("C03.hint_postcondition", *hint == i, key, "t=" + jhex(t) + " hint_in=" + std::to_string(hin) + " hint_out=" + std::to_string(*hint) + " piece=" + std::to_string(i));
+    // no hint supplied (null pointer) is the plain lookup
+    c.require("C03.route_null_hint_identical", sameVec(pp.evalHint(t, nullptr, k), plain) && (k > 6 || sameVec(pp.evalHintEnum(t, nullptr, k), plain)), key);
     if (k <= 6)
     {
         c.require("C03.route_enum_identical", sameVec(pp.evalEnum(t, k), plain), key);
@@ -526,11 +529,26 @@ void runC11(Ctx &c)
             const int len = r.range(6, thorough ? 60 : 30);
             for (int step = 0; step < len && !c.case_failed; ++step)
             {
-                int op = r.range(0, 10);
+                int op = r.range(0, 11);
                 int a = r.range(0, (int)live.size() - 1);
                 Live &A = live[a];
                 switch (op)
                 {
+                case 11: // update() fed with the object's own getters (keep the knots / keep the coefficients / refresh)
+                    if (A.m.init)
+                    {
+                        int which = r.range(0, 2);
+                        if (which == 0)
+                            A.m.C = genCoeffs(r, A.m.nseg() * A.m.nc, dim);
+                        else if (which == 1)
+                            A.m.bp = genBreakpoints(r, A.m.nseg());
+                        A.pp->updateAliased(which, A.m.bp, A.m.C, A.m.nc);
+                        trace.push_back(std::string("update_with_own_") + (which == 0 ? "breakpoints" : which == 1 ? "coefficients" : "breakpoints_and_coefficients") + " obj" + std::to_string(a));
+                        c.event("op.update_with_own_getters");
+                    }
+                    else
+                        trace.push_back("noop");
+                    break;
                 case 0: // evaluate at some orders first (populates the lazy caches)
                 case 1:
                     if (A.m.init)
@@ -725,9 +743,16 @@ void runC11(Ctx &c)
                     // start time moved
                     Problem q = genProblem(r, od.first, od.second, prevP.N);
                     q.T = prevP.T;
-                    int k = r.range(0, 2);
+                    int k = r.range(0, 3);
                     if (k == 0)
                         q.t0 = prevP.t0;
+                    else if (k == 3)
+                    {
+                        // the same horizon (start, bitwise the same end, segment count) split differently
+                        q.t0 = prevP.t0;
+                        if (resplitSameHorizon(r, q))
+                            c.event("spline_update.same_horizon_other_split");
+                    }
                     else if (k == 2)
                     {
                         q.P = prevP.P;
@@ -889,7 +914,14 @@ void runC16(Ctx &c)
                 MatrixXd C = genCoeffs(r, rows, dim);
                 desc += what + "(" + std::to_string(bp.size()) + "bp," + std::to_string(rows) + "rows,nc=" + std::to_string(nc) + ") ";
                 hh = mix64(hh, hashStr(what.c_str()) + rows * 131 + nc);
-                if (!pp || r.coin(0.3))
+                if (kind != 2 && r.coin(0.25))
+                {
+                    // the static factory is a construction route as well (same rejection rules)
+                    pp = proto->makeZero(bp, nc);
+                    what += "/zero_factory";
+                    c.event("ppoly.route.zero_factory");
+                }
+                else if (!pp || r.coin(0.3))
                     pp = proto->makeCtor(bp, C, nc);
                 else
                     pp->update(bp, C, nc);
@@ -1315,8 +1347,10 @@ void runC20(Ctx &c)
             auto z = proto->makeZero(bp, nc);
             auto k = proto->makeConstant(bp, v);
             int encz = nc < 0 ? 1 : nc;
-            bool shape = z->isInitialized() && k->isInitialized() && bitEqualVec(z->breakpoints(), bp) && bitEqualVec(k->breakpoints(), bp) && z->numCoeffs() == encz &&
-                         k->numCoeffs() == 1 && z->numSegments() == nbp - 1 && k->numSegments() == nbp - 1;
+            // (the property fixes the breakpoints and the values, not how many coefficients the factory stores)
+            bool shape = z->isInitialized() && k->isInitialized() && bitEqualVec(z->breakpoints(), bp) && bitEqualVec(k->breakpoints(), bp) && z->numCoeffs() >= 1 &&
+                         k->numCoeffs() >= 1 && z->numSegments() == nbp - 1 && k->numSegments() == nbp - 1;
+            encz = std::max(encz, std::max(z->numCoeffs(), k->numCoeffs()));
             if (!c.require("C20.factory_shape", shape, key))
                 continue;
             bool zok = true, kok = true;
@@ -1358,6 +1392,7 @@ int main(int argc, char **argv)
         return 2;
     }
     installCrashHandlers();
+    installRoutesHook();
     Ctx c;
     c.a = a;
     c.prop_hash = hashStr(a.prop.c_str());
